@@ -118,10 +118,11 @@ def generate(ctx):
                                  'dense_analysis_model': not (c['M'] >= 20)}
             ctx.count('variant:' + vtag(v))
         if c['spacing'] != 'equiangular_with_poles' and c['M'] >= 2:
-            yield 'jit_static', {'cfg': c, 'seed': int(rng.integers(0, 2 ** 31))}
+            yield 'jit_static', {'cfg': c, 'seed': int(rng.integers(0, 2 ** 31)),
+                                 'radius_seq': bool(ctx.tier == 'thorough' or n % 4 == 1)}
         yield 'equiv', {'cfg': c, 'seed': int(rng.integers(0, 2 ** 31)), 'lead': [[], [2]][n % 2],
                         'variants': ([VARIANTS[0], VARIANTS[7], VARIANTS[4]] if big else VARIANTS if ctx.tier == 'thorough'
-                                     else [VARIANTS[(n + k) % 8] for k in (0, 3, 5, 6)] + [EXTRA_VARIANTS[n % len(EXTRA_VARIANTS)]])
+                                     else [VARIANTS[(n + k) % 8] for k in (0, 3, 5, 6)] + ([EXTRA_VARIANTS[(n // 2) % len(EXTRA_VARIANTS)]] if n % 2 == 0 else []))
                                     + (EXTRA_VARIANTS if (ctx.tier == 'thorough' and not big) else []),
                         'full_methods_variants': [0] if (big or ctx.tier == 'quick') else [n % 8, (n + 5) % 8]}
 
@@ -173,6 +174,7 @@ def r_jit_static(ctx, a):
                              Pi(vor, c['M'], c['L']), ref[0], scale=sc, tol_rel=1e-10)
 
     # two grids differing in ONE non-layout field (radius; longitude offset), used in both orders in this process
+    if not a.get('radius_seq'): return
     kw2 = dict(kw, radius=2.0 * c['radius']); kw3 = dict(kw, longitude_offset=c['offset'] + 0.5)
     for impl, nm in ((sh.RealSphericalHarmonics, 'real'), (sh.FastSphericalHarmonics, 'fast')):
         g1 = sh.Grid(spherical_harmonics_impl=impl, **kw); g2 = sh.Grid(spherical_harmonics_impl=impl, **kw2)
